@@ -236,7 +236,7 @@ func parentMain(prop *Property, tier string, seed int64, verifDir string, nworke
 			var stderrBuf *tailBuf
 			start := func() {
 				pr, pw, _ := os.Pipe()
-				cmd = exec.Command("/bin/sh", "-c", fmt.Sprintf("ulimit -v %d; exec \"$0\" \"$@\"", 6<<20), self, prop.ID, "--tier", tier, "--worker", "--verif", verifDir, "--seed", fmt.Sprint(seed), "--deadline", fmt.Sprint(deadline.UnixNano()))
+				cmd = exec.Command("/bin/sh", "-c", fmt.Sprintf("ulimit -v %d; exec \"$0\" \"$@\"", workerMemKB()), self, prop.ID, "--tier", tier, "--worker", "--verif", verifDir, "--seed", fmt.Sprint(seed), "--deadline", fmt.Sprint(deadline.UnixNano()))
 				cmd.ExtraFiles = []*os.File{pw}
 				stderrBuf = &tailBuf{}
 				cmd.Stderr = stderrBuf
@@ -286,7 +286,12 @@ func parentMain(prop *Property, tier string, seed int64, verifDir string, nworke
 					cmd.Wait()
 					rpipe.Close()
 					res = &Result{Scenario: scs[idx].Name, Exhaustive: false, CapHit: "worker process aborted"}
-					res.Findings = append(res.Findings, Finding{Sig: prop.ID + "/process-aborted/" + sigPart(scs[idx].Name), Msg: "worker process died while running the scenario: " + stderrBuf.String(), Scenario: scs[idx].Name})
+					if stderrBuf.outOfMemory() {
+						res.CapHit = "memory limit of the worker process"
+						fmt.Printf("  worker ran out of memory on: %s\n", scs[idx].Name)
+					} else {
+						res.Findings = append(res.Findings, Finding{Sig: prop.ID + "/process-aborted/" + sigPart(scs[idx].Name), Msg: "worker process died while running the scenario: " + stderrBuf.String(), Scenario: scs[idx].Name})
+					}
 					start()
 				}
 				mu.Lock()
@@ -455,16 +460,27 @@ func sigPart(s string) string {
 }
 
 type tailBuf struct {
-	mu sync.Mutex
-	b  []byte
+	mu   sync.Mutex
+	head []byte // the first bytes: a Go runtime abort names its reason there
+	b    []byte // the last bytes
 }
 
 func (t *tailBuf) Write(p []byte) (int, error) {
 	t.mu.Lock()
 	defer t.mu.Unlock()
-	t.b = append(t.b, p...)
-	if len(t.b) > 6000 {
-		t.b = t.b[len(t.b)-6000:]
+	if room := 3000 - len(t.head); room > 0 {
+		n := len(p)
+		if n > room {
+			n = room
+		}
+		t.head = append(t.head, p[:n]...)
+		p2 := p[n:]
+		t.b = append(t.b, p2...)
+	} else {
+		t.b = append(t.b, p...)
+	}
+	if len(t.b) > 4000 {
+		t.b = t.b[len(t.b)-4000:]
 	}
 	return len(p), nil
 }
@@ -472,7 +488,22 @@ func (t *tailBuf) Write(p []byte) (int, error) {
 func (t *tailBuf) String() string {
 	t.mu.Lock()
 	defer t.mu.Unlock()
-	return string(t.b)
+	if len(t.b) == 0 {
+		return string(t.head)
+	}
+	return string(t.head) + "\n[...]\n" + string(t.b)
+}
+
+// outOfMemory: the worker hit its address-space limit (ulimit -v) - a resource cap of
+// the machinery, not a behaviour of the code under test.
+func (t *tailBuf) outOfMemory() bool {
+	s := t.String()
+	for _, m := range []string{"out of memory", "cannot allocate memory", "runtime: cannot allocate", "errno=12"} {
+		if strings.Contains(s, m) {
+			return true
+		}
+	}
+	return false
 }
 
 // ---------------------------------------------------------------------------
@@ -715,6 +746,15 @@ func runVs(c *RunCtx, sp *VsSpec) *Result {
 		res.Samples = append(res.Samples, sp.Sample())
 	}
 	return res
+}
+
+// workerMemKB: address-space limit of a worker process (6 GiB; VERIF_WORKER_MEM_KB overrides, for testing the cap handling)
+func workerMemKB() int {
+	kb := 6 << 20
+	if s := os.Getenv("VERIF_WORKER_MEM_KB"); s != "" {
+		fmt.Sscan(s, &kb)
+	}
+	return kb
 }
 
 // betterResult: complete beats cut off, then the higher completed bound, then more executions.
